@@ -1,6 +1,7 @@
 package main
 
 import (
+	"regexp"
 	"bufio"
 	"encoding/json"
 	"flag"
@@ -140,8 +141,26 @@ func loadKnown() []KnownFinding {
 
 // loadNotClaimed: obligations that do not discharge on the unchanged tree and are NOT claimed
 // (listed honestly in the evidence; they are neither proved nor reported as violations).
-func loadNotClaimed() map[string]bool {
-	out := map[string]bool{}
+// ncSet: the not-claimed list. Site obligations (nilderef, index, typeassert, ... : the ones whose
+// name ends in ":<expression text>") are matched without their running number and with SSA
+// temporaries normalised, so that an unrelated edit that renumbers the sites of a function does not
+// turn a not-claimed obligation into an alarm.
+type ncSet map[string]bool
+
+var ncOrdRe = regexp.MustCompile(`#\d+(\.\d+)*:`)
+var ncTmpRe = regexp.MustCompile(`\bt\d+\b`)
+
+func ncKey(name string) string {
+	if loc := ncOrdRe.FindStringIndex(name); loc != nil {
+		return name[:loc[0]] + ":" + ncTmpRe.ReplaceAllString(name[loc[1]:], "t_")
+	}
+	return name
+}
+
+func (n ncSet) has(name string) bool { return n[name] || n[ncKey(name)] }
+
+func loadNotClaimed() ncSet {
+	out := ncSet{}
 	data, err := os.ReadFile(filepath.Join(verifDir, "specs", "not_claimed.txt"))
 	if err != nil {
 		return out
@@ -155,6 +174,7 @@ func loadNotClaimed() map[string]bool {
 			ln = strings.TrimSpace(ln[:i])
 		}
 		out[ln] = true
+		out[ncKey(ln)] = true
 	}
 	return out
 }
@@ -301,7 +321,7 @@ func cmdCheck(args []string) int {
 		var keep []obRef
 		for _, r := range todo {
 			ob := r.j.vc.Obs[r.k]
-			if notClaimedPre[ob.Name] {
+			if notClaimedPre.has(ob.Name) {
 				ob.Result = "not-claimed" // not solved at all: neither proved nor reported
 			}
 			keep = append(keep, r)
@@ -416,7 +436,7 @@ func cmdCheck(args []string) int {
 			if ob.Result != "timeout" && ob.Result != "unknown" && ob.Result != "error" {
 				continue
 			}
-			if np[ob.Name] {
+			if np.has(ob.Name) {
 				continue
 			}
 			wg3.Add(1)
@@ -524,7 +544,7 @@ func cmdCheck(args []string) int {
 			}
 			continue
 		}
-		if notClaimed[ob.Name] {
+		if notClaimed.has(ob.Name) {
 			nNotClaimed++
 			total--
 			notClaimedHit = append(notClaimedHit, ob.Name)
